@@ -156,6 +156,36 @@ package stats
 //@        && latestStats.RemoteOutboundRTPStreamStats.BytesSent == uint64(as(incoming.pkts[0], "*rtcp.SenderReport").OctetCount)
 //@        && latestStats.RemoteOutboundRTPStreamStats.ReportsSent == old(latestStats.RemoteOutboundRTPStreamStats.ReportsSent) + 1
 //@
+//@ # outgoing RTCP: the history of sent sender reports keeps the NEWEST maxLastSenderReports NTP times in order
+//@ # (round-trip times are matched against it); feedback counters count packets addressed to this SSRC. Stated, as for
+//@ # incoming RTCP, for compounds of one packet plus the frame of every step.
+//@ func (*recorder).recordOutgoingRTCP
+//@   requires in: v != nil && r.maxLastSenderReports >= 1 && r.maxLastReceiverReferenceTimes >= 1
+//@   # append may write behind the end of the caller's history slices (same backing array, invisible through the caller's slice)
+//@   modifies *
+//@   ensures remote_untouched: result.OutboundRTPStreamStats == latestStats.OutboundRTPStreamStats && result.RemoteInboundRTPStreamStats == latestStats.RemoteInboundRTPStreamStats
+//@        && result.RemoteOutboundRTPStreamStats == latestStats.RemoteOutboundRTPStreamStats && result.inboundSequencerNumber == latestStats.inboundSequencerNumber
+//@   ensures empty_compound: len(v.pkts) == 0 ==> result == latestStats
+//@   ensures single_sr: len(v.pkts) == 1 && typeis(v.pkts[0], "*rtcp.SenderReport") && contains(v.pkts[0].DestinationSSRC(), r.ssrc) ==>
+//@        len(result.lastSenderReports) == ite(len(latestStats.lastSenderReports) + 1 > r.maxLastSenderReports, r.maxLastSenderReports, len(latestStats.lastSenderReports) + 1)
+//@        && result.lastSenderReports[len(result.lastSenderReports) - 1] == as(v.pkts[0], "*rtcp.SenderReport").NTPTime
+//@        && (forall j int :: 0 <= j && j < len(result.lastSenderReports) - 1 ==> result.lastSenderReports[j] == latestStats.lastSenderReports[j + len(latestStats.lastSenderReports) + 1 - len(result.lastSenderReports)])
+//@   ensures single_nack: len(v.pkts) == 1 && typeis(v.pkts[0], "*rtcp.TransportLayerNack") ==> result.InboundRTPStreamStats.NACKCount ==
+//@        latestStats.InboundRTPStreamStats.NACKCount + ite(contains(v.pkts[0].DestinationSSRC(), r.ssrc), uint32(1), uint32(0))
+//@        && result.lastSenderReports == latestStats.lastSenderReports
+//@   loop 1 invariant remote_untouched: latestStats.OutboundRTPStreamStats == old(latestStats.OutboundRTPStreamStats) && latestStats.RemoteInboundRTPStreamStats == old(latestStats.RemoteInboundRTPStreamStats)
+//@        && latestStats.RemoteOutboundRTPStreamStats == old(latestStats.RemoteOutboundRTPStreamStats) && latestStats.inboundSequencerNumber == old(latestStats.inboundSequencerNumber)
+//@   loop 1 invariant first_not_yet: rangeindex < 0 ==> latestStats == old(latestStats)
+//@   loop 1 invariant single_sr: rangeindex >= 0 && len(v.pkts) == 1 && typeis(v.pkts[0], "*rtcp.SenderReport") && contains(v.pkts[0].DestinationSSRC(), r.ssrc) ==>
+//@        len(latestStats.lastSenderReports) == ite(len(old(latestStats.lastSenderReports)) + 1 > r.maxLastSenderReports, r.maxLastSenderReports, len(old(latestStats.lastSenderReports)) + 1)
+//@        && latestStats.lastSenderReports[len(latestStats.lastSenderReports) - 1] == as(v.pkts[0], "*rtcp.SenderReport").NTPTime
+//@        && (forall j int :: 0 <= j && j < len(latestStats.lastSenderReports) - 1 ==> latestStats.lastSenderReports[j] == old(latestStats.lastSenderReports)[j + len(old(latestStats.lastSenderReports)) + 1 - len(latestStats.lastSenderReports)])
+//@   loop 1 invariant single_nack: rangeindex >= 0 && len(v.pkts) == 1 && typeis(v.pkts[0], "*rtcp.TransportLayerNack") ==> latestStats.InboundRTPStreamStats.NACKCount ==
+//@        old(latestStats.InboundRTPStreamStats.NACKCount) + ite(contains(v.pkts[0].DestinationSSRC(), r.ssrc), uint32(1), uint32(0))
+//@        && latestStats.lastSenderReports == old(latestStats.lastSenderReports)
+//@   loop 1 opt noautoframe
+//@   loop 2 opt noautoframe
+//@
 //@ # ---- interceptor glue (properties C01, C02): every closure forwards exactly once, unchanged, and passes the result through
 //@ func (*Interceptor).BindLocalStream$1
 //@   modifies *
